@@ -50,6 +50,15 @@ add("C04", MC,
     "Trusted: refimpl::h3auto; simnet stream semantics (a RESET may overtake unread bytes, incl. the stream type). Not asserted: grease before SETTINGS, CANCEL_PUSH, push streams.",
     "stateless DFS over environment choices (chunk cuts, delays, schedule, stream credit, write acceptance) with deviation bound, of the implementation against a reference automaton", "dfs", "DESIGN.md 5/C04")
 
+add("C06", MC,
+    "Every byte string up to 2 (3) bytes on each of 8 stream kinds, and grammar strings with one fault (FIN, RESET, STOP_SENDING, connection close, timeout) injected at every byte offset, delivered whole and one byte per read, are played by a scripted peer against real h3 endpoints running the documented call pattern (incl. the sending half) over simnet. Checked build has overflow checks and debug assertions on. The liveness half ('every pending call completes once the peer has ended what it waits on') is decided at quiescence of the closed world, where 'pending forever' is a fact rather than a timeout.",
+    "Trusted: simnet's closed-world quiescence (no timers, no I/O). One fault per execution; zero-length transport chunks are outside the contract.",
+    "exhaustive enumeration of peer scripts x fault positions x delivery modes on the implementation under a deterministic executor; quiescence-based liveness oracle", "dfs", "DESIGN.md 5/C06")
+add("C13", MC,
+    "Every builder configuration of a grid (booleans x 12 size values incl. >= 2^62 x grease x seeds x write acceptance, both builders) is built over simnet and its control-stream wire log judged by an independent SETTINGS parser; every SETTINGS payload of a grammar (15 identifiers x values x varint forms, duplicates, HTTP/2-reserved, unknown, every truncation, whole/per-byte) is delivered to a real server and client and the error code and applied values (observed by behaviour) compared with the reference.",
+    "Trusted: refimpl::settings. Values >= 2^62: clean refusal or saturation accepted. Repeated unknown identifiers: ignore or reject both accepted.",
+    "exhaustive enumeration of configurations and received payloads on the implementation over a deterministic in-memory transport, reference-model oracle", "dfs", "DESIGN.md 5/C13")
+
 ALL = [f"C{i:02d}" for i in range(1, 21)]
 pending_reason = "check not built yet in this revision of /verif (planned, see DESIGN.md section 5)"
 manifest = dict(
